@@ -1,3 +1,4 @@
+-- properties: C04 C11
 /-
   C04 / C11 — the W64 container (SfModel/W64.lean), sample-granular encodings.  Property theorems only
   (helpers: SfProofs/CafBytes.lean, W64Image.lean, W64Session.lean).
